@@ -4,10 +4,18 @@ behaviour-preserving spellings of the same program:
   * logging statements `log.<level>(...)` are removed (they have no effect on any tracked fact);
   * `if not c: A else: B` becomes `if c: B else: A` (also for conditional expressions); `not (x is None)` becomes
     `x is not None`, likewise for `is not`, `==`, `!=`, `in`, `not in`;
+  * an `else` after an arm that always leaves the block (return / raise / continue / break) is flattened: the guard arm
+    stays in the `if`, the other arm follows it; `if a: (if b: X)` without any `else` becomes `if a and b: X`;
+    `x = x <op> e` on a plain name or attribute becomes `x <op>= e`;
+  * relative to the reference tree (the tree the rules were written against, spec/locals.json + spec/compares.json):
+    a local that the reference does not know, assigned once and read once as the first thing the next statement
+    evaluates, is substituted back (and dropped when it is never read and its value has no effect); a comparison
+    `a < b` whose mirrored spelling `b > a` is the one the reference has is mirrored back;
   * the local variables of a function are alpha-renamed to the names recorded for that function in
-    /verif/spec/locals.json (the names on the tree the rules were written against), positionally by order of first
-    binding, when the function still binds the same number of locals and no recorded name collides with another name
-    used in the function.  A consistent renaming of locals never changes behaviour, so it can neither hide nor create
+    /verif/spec/locals.json (the names on the tree the rules were written against): locals whose name is recorded keep
+    it; the others are matched, by order of first binding, with the recorded names that are no longer bound; only when
+    the function still binds the same number of locals and no recorded name collides with another name used in the
+    function.  A consistent renaming of locals never changes behaviour, so it can neither hide nor create
     a violation; when the precondition fails the function is left as it is.
 """
 import ast
@@ -17,6 +25,7 @@ import os
 LEVELS = ('debug', 'info', 'warning', 'warn', 'error', 'exception', 'critical', 'log')
 _NEG = {ast.Is: ast.IsNot, ast.IsNot: ast.Is, ast.Eq: ast.NotEq, ast.NotEq: ast.Eq, ast.In: ast.NotIn, ast.NotIn: ast.In}
 _REF = None
+_REFC = None
 
 
 def reference():
@@ -29,6 +38,18 @@ def reference():
         except (IOError, ValueError):
             _REF = {}
     return _REF
+
+
+def reference_compares():
+    global _REFC
+    if _REFC is None:
+        p = os.path.join(os.path.dirname(os.path.dirname(os.path.abspath(__file__))), 'spec', 'compares.json')
+        try:
+            with open(p) as f:
+                _REFC = json.load(f)
+        except (IOError, ValueError):
+            _REFC = {}
+    return _REFC
 
 
 def is_log_stmt(st):
@@ -53,6 +74,41 @@ def _positive(t):
     return t
 
 
+
+def _terminates(body):
+    if not body:
+        return False
+    last = body[-1]
+    if isinstance(last, (ast.Return, ast.Raise, ast.Continue, ast.Break)):
+        return True
+    if isinstance(last, ast.If) and last.orelse:
+        return _terminates(last.body) and _terminates(last.orelse)
+    return False
+
+
+def negate(t):
+    if isinstance(t, ast.UnaryOp) and isinstance(t.op, ast.Not):
+        return t.operand
+    if isinstance(t, ast.Compare) and len(t.ops) == 1 and type(t.ops[0]) in _NEG:
+        t.ops = [_NEG[type(t.ops[0])]()]
+        return t
+    return ast.copy_location(ast.UnaryOp(op=ast.Not(), operand=t), t)
+
+
+def _plain(e):
+    return isinstance(e, ast.Name) or (isinstance(e, ast.Attribute) and _plain(e.value))
+
+
+def _same(a, b):
+    if type(a) is not type(b):
+        return False
+    if isinstance(a, ast.Name):
+        return a.id == b.id
+    if isinstance(a, ast.Attribute):
+        return a.attr == b.attr and _same(a.value, b.value)
+    return False
+
+
 class _Shape(ast.NodeTransformer):
     def _strip(self, body):
         out = [st for st in body if not is_log_stmt(st)]
@@ -67,11 +123,42 @@ class _Shape(ast.NodeTransformer):
         for fld in ('body', 'orelse', 'finalbody'):
             b = getattr(node, fld, None)
             if isinstance(b, list) and b and isinstance(b[0], ast.stmt):
-                setattr(node, fld, self._strip(b))
+                setattr(node, fld, self._flatten(self._strip(b)))
+        return node
+
+    def _flatten(self, body):
+        out = list(body)
+        i = 0
+        while i < len(out):
+            st = out[i]
+            if isinstance(st, ast.If) and st.orelse:
+                if _terminates(st.body):
+                    rest, st.orelse = st.orelse, []
+                    out[i + 1:i + 1] = rest
+                elif _terminates(st.orelse):
+                    st.test = negate(st.test)
+                    rest, st.body, st.orelse = st.body, st.orelse, []
+                    out[i + 1:i + 1] = rest
+            i += 1
+        return out
+
+    def visit_Assign(self, node):
+        self.generic_visit(node)
+        if len(node.targets) == 1 and isinstance(node.value, ast.BinOp) and _plain(node.targets[0]) \
+                and _same(node.targets[0], node.value.left):
+            new = ast.AugAssign(target=node.targets[0], op=node.value.op, value=node.value.right)
+            return ast.copy_location(new, node)
         return node
 
     def visit_If(self, node):
         self.generic_visit(node)
+        if not node.orelse and len(node.body) == 1 and isinstance(node.body[0], ast.If) and not node.body[0].orelse:
+            inner = node.body[0]
+            vals = []
+            for t in (node.test, inner.test):
+                vals.extend(t.values if isinstance(t, ast.BoolOp) and isinstance(t.op, ast.And) else [t])
+            node.test = ast.copy_location(ast.BoolOp(op=ast.And(), values=vals), node.test)
+            node.body = inner.body
         while node.orelse and not (len(node.orelse) == 1 and isinstance(node.orelse[0], ast.If)) and _negative(node.test):
             node.test = _positive(node.test)
             node.body, node.orelse = node.orelse, node.body
@@ -203,30 +290,279 @@ def _rename(f, mapping):
     rec(f, mapping)
 
 
+
+# ---- reference-guided rewrites (each one is behaviour preserving on its own; the reference only selects where to apply it)
+
+_FLIP = {ast.Lt: ast.Gt, ast.Gt: ast.Lt, ast.LtE: ast.GtE, ast.GtE: ast.LtE, ast.Eq: ast.Eq, ast.NotEq: ast.NotEq}
+
+
+def own_nodes(f):
+    out = []
+
+    def rec(n):
+        for ch in _children_in_order(n):
+            if isinstance(ch, SCOPES):
+                continue
+            out.append(ch)
+            rec(ch)
+    rec(f)
+    return out
+
+
+def flippable(n):
+    return isinstance(n, ast.Compare) and len(n.ops) == 1 and type(n.ops[0]) in _FLIP
+
+
+def mirrored(n):
+    return ast.Compare(left=n.comparators[0], ops=[_FLIP[type(n.ops[0])]()], comparators=[n.left])
+
+
+def compares_of(f):
+    return sorted(set(ast.unparse(n) for n in own_nodes(f) if flippable(n)))
+
+
+def _restore_compares(f, want):
+    want = set(want)
+    for n in own_nodes(f):
+        if flippable(n) and ast.unparse(n) not in want:
+            m = mirrored(n)
+            if ast.unparse(m) in want:
+                n.left, n.ops, n.comparators = m.left, m.ops, m.comparators
+
+
+def _stmt_lists(f):
+    out = [f.body]
+    for n in own_nodes(f):
+        for fld in ('body', 'orelse', 'finalbody'):
+            b = getattr(n, fld, None)
+            if isinstance(b, list) and b and isinstance(b[0], ast.stmt):
+                out.append(b)
+    return out
+
+
+def _pure(e):
+    """evaluating e has no effect and cannot observe one (names, attribute chains, constants)"""
+    if isinstance(e, (ast.Name, ast.Constant)):
+        return True
+    if isinstance(e, ast.Attribute):
+        return _pure(e.value)
+    if isinstance(e, (ast.Tuple, ast.List)):
+        return all(_pure(x) for x in e.elts)
+    return False
+
+
+def _first_evaluated(stmt):
+    """the expression a statement evaluates first, or None"""
+    if isinstance(stmt, (ast.If, ast.While)):
+        return None if isinstance(stmt, ast.While) else stmt.test
+    if isinstance(stmt, (ast.Return, ast.Expr)):
+        return stmt.value
+    if isinstance(stmt, ast.Assign):
+        return stmt.value
+    if isinstance(stmt, ast.AugAssign):
+        return stmt.value if _pure(stmt.target) else None
+    if isinstance(stmt, (ast.For, ast.AsyncFor)):
+        return stmt.iter
+    if isinstance(stmt, (ast.With, ast.AsyncWith)):
+        return stmt.items[0].context_expr if stmt.items else None
+    if isinstance(stmt, ast.Raise):
+        return stmt.exc
+    return None
+
+
+def _load_is_first(expr, name):
+    """True when the single load of `name` inside expr is evaluated before anything that has or observes an effect"""
+    state = {'found': False, 'blocked': False}
+
+    def rec(e):
+        if state['found'] or state['blocked']:
+            return
+        if isinstance(e, ast.Name):
+            if e.id == name and isinstance(e.ctx, ast.Load):
+                state['found'] = True
+            return
+        if isinstance(e, ast.Constant):
+            return
+        if isinstance(e, ast.Attribute):
+            rec(e.value)
+            return
+        if isinstance(e, ast.BoolOp):
+            rec(e.values[0])
+            if not state['found']:
+                state['blocked'] = True
+            return
+        if isinstance(e, ast.IfExp):
+            rec(e.test)
+            if not state['found']:
+                state['blocked'] = True
+            return
+        if isinstance(e, ast.UnaryOp):
+            rec(e.operand)
+            return
+        if isinstance(e, ast.BinOp):
+            rec(e.left)
+            if not state['found']:
+                if _pure(e.left):
+                    rec(e.right)
+                else:
+                    state['blocked'] = True
+            return
+        if isinstance(e, ast.Compare):
+            seq = [e.left] + list(e.comparators)
+            for i, x in enumerate(seq):
+                rec(x)
+                if state['found'] or state['blocked']:
+                    return
+                if not _pure(x):
+                    state['blocked'] = True
+                    return
+            return
+        if isinstance(e, ast.Call):
+            rec(e.func)
+            if state['found'] or state['blocked']:
+                return
+            if not _pure(e.func):
+                state['blocked'] = True
+                return
+            for a in list(e.args) + [k.value for k in e.keywords]:
+                x = a.value if isinstance(a, ast.Starred) else a
+                rec(x)
+                if state['found'] or state['blocked']:
+                    return
+                if not _pure(x):
+                    state['blocked'] = True
+                    return
+            state['blocked'] = True      # the call itself happens before anything later
+            return
+        if isinstance(e, (ast.Tuple, ast.List, ast.Set)):
+            for x in e.elts:
+                rec(x)
+                if state['found'] or state['blocked']:
+                    return
+                if not _pure(x):
+                    state['blocked'] = True
+                    return
+            return
+        if isinstance(e, ast.Subscript):
+            rec(e.value)
+            if not state['found'] and not state['blocked']:
+                if _pure(e.value):
+                    rec(e.slice)
+                else:
+                    state['blocked'] = True
+            return
+        state['blocked'] = True
+    rec(expr)
+    return state['found']
+
+
+class _Subst(ast.NodeTransformer):
+    def __init__(self, name, value):
+        self.name, self.value = name, value
+
+    def visit_Name(self, n):
+        if n.id == self.name and isinstance(n.ctx, ast.Load):
+            return self.value
+        return n
+
+
+def _undo_new_temps(f, known):
+    """locals the reference does not know: `t = e` immediately followed by the only read of t, which the next statement
+    evaluates first -> e substituted; never read and e without effect -> statement dropped"""
+    changed = False
+    for _round in range(8):
+        cur = ordered_locals(f)
+        new = [n for n in cur if n not in known]
+        if not new:
+            break
+        # names used by nested scopes cannot be reasoned about locally
+        nested = set()
+        for n in ast.walk(f):
+            if n is not f and isinstance(n, SCOPES + COMPS):
+                for x in ast.walk(n):
+                    if isinstance(x, ast.Name):
+                        nested.add(x.id)
+        own = own_nodes(f)
+        progress = False
+        for t in new:
+            if t in nested:
+                continue
+            stores = [n for n in own if isinstance(n, ast.Name) and n.id == t and isinstance(n.ctx, ast.Store)]
+            loads = [n for n in own if isinstance(n, ast.Name) and n.id == t and isinstance(n.ctx, ast.Load)]
+            others = [n for n in own if (isinstance(n, ast.ExceptHandler) and n.name == t) or (isinstance(n, ast.Name) and n.id == t and isinstance(n.ctx, ast.Del))]
+            if len(stores) != 1 or others:
+                continue
+            for body in _stmt_lists(f):
+                for i, st in enumerate(body):
+                    if isinstance(st, ast.Assign) and len(st.targets) == 1 and st.targets[0] is stores[0]:
+                        if not loads:
+                            if _pure(st.value):
+                                del body[i]
+                                if not body:
+                                    body.append(ast.copy_location(ast.Pass(), st))
+                            else:
+                                body[i] = ast.copy_location(ast.Expr(value=st.value), st)
+                            progress = True
+                        elif len(loads) == 1 and i + 1 < len(body):
+                            nxt = body[i + 1]
+                            fe = _first_evaluated(nxt)
+                            if fe is not None and any(x is loads[0] for x in ast.walk(fe)) and _load_is_first(fe, t):
+                                new_fe = _Subst(t, st.value).visit(fe)
+                                for fld in ('test', 'value', 'iter', 'exc'):
+                                    if getattr(nxt, fld, None) is fe:
+                                        setattr(nxt, fld, new_fe)
+                                if isinstance(nxt, (ast.With, ast.AsyncWith)) and nxt.items and nxt.items[0].context_expr is fe:
+                                    nxt.items[0].context_expr = new_fe
+                                del body[i]
+                                progress = True
+                        break
+                if progress:
+                    break
+            if progress:
+                break
+        if not progress:
+            break
+        changed = True
+    return changed
+
+
 def canonicalise(tree, rel):
     tree = _Shape().visit(tree)
     ast.fix_missing_locations(tree)
     ref = reference().get(rel, {})
+    refc = reference_compares().get(rel, {})
+    reff = set(reference().get('__functions__', {}).get(rel, []))
     renamed = 0
-    if ref:
+    if ref or refc or reff:
         def visit(node, prefix):
             nonlocal renamed
             for ch in ast.iter_child_nodes(node):
                 if isinstance(ch, (ast.FunctionDef, ast.AsyncFunctionDef, ast.ClassDef)):
                     q = prefix + ch.name
                     visit(ch, q + '.')
+                    if isinstance(ch, (ast.FunctionDef, ast.AsyncFunctionDef)) and (q in ref or q in refc or q in reff):
+                        # (a function without locals is not in the locals table)
+                        if len(ordered_locals(ch)) > len(ref.get(q, [])):
+                            if _undo_new_temps(ch, set(ref.get(q, [])) | set(params_of(ch))):
+                                ast.fix_missing_locations(ch)
                     if isinstance(ch, (ast.FunctionDef, ast.AsyncFunctionDef)) and q in ref:
                         cur = ordered_locals(ch)
                         want = ref[q]
                         if cur != want and len(cur) == len(want):
-                            mapping = dict((c, w) for c, w in zip(cur, want) if c != w)
+                            # names present on both sides keep their name (a reordered first binding is not a renaming);
+                            # the remaining ones are matched by order of first binding
+                            only_cur = [c for c in cur if c not in want]
+                            only_want = [w for w in want if w not in cur]
+                            mapping = dict(zip(only_cur, only_want))
                             others = _all_names(ch) - set(cur)
-                            if not (set(mapping.values()) & others) and len(set(want)) == len(want):
+                            if mapping and not (set(mapping.values()) & others) and len(set(want)) == len(want):
                                 # two-step to allow permutations
                                 tmp = dict((c, '__canon_%d__' % i) for i, c in enumerate(mapping))
                                 _rename(ch, tmp)
                                 _rename(ch, dict((tmp[c], mapping[c]) for c in mapping))
                                 renamed += 1
+                    if isinstance(ch, (ast.FunctionDef, ast.AsyncFunctionDef)) and q in refc:
+                        _restore_compares(ch, refc[q])
                 elif isinstance(ch, (ast.If, ast.Try, ast.With, ast.For, ast.While, ast.ExceptHandler)):
                     visit(ch, prefix)
         visit(tree, '')
